@@ -610,3 +610,305 @@ Fixpoint sort_scan (gs : list Z) (idx prev first n : Z) (acc : list (Z * Z)) : k
 
 Definition sort_coo_scan (group_coords : list Z) : kres (list (Z * Z)) :=
   sort_scan (group_coords ++ [-1]) 0 (-1) (-1) (zlen group_coords) [].
+
+(* ================================================================= GCXS product kernels (_common.py)
+   All loops are `for` loops (no fuel).  The iteration space of a row — the sequence of (k, value)
+   pairs the two innermost loops visit — is defined only by input arrays the loop bodies never
+   write to, so it is materialised first (csr_row_pairs / csc_col_pairs) and the bodies then run
+   over that list: the same reads and writes in the same order.
+
+   _csr_csr_count_nnz:
+     mask = np.full(n_col, -1); nnz = 0
+     for i in range(n_row):
+         row_nnz = 0
+         for j in a_indices[a_indptr[i]:a_indptr[i+1]]:
+             for k in b_indices[b_indptr[j]:b_indptr[j+1]]:
+                 if mask[k] != i: mask[k] = i; row_nnz += 1
+         nnz += row_nnz *)
+
+(* if mask[k] != i: mask[k] = i; cnt += 1     for k in ks *)
+Fixpoint mask_count (ks : list Z) (i : Z) (mask : list Z) (cnt : Z) : kres (list Z * Z) :=
+  match ks with
+  | [] => Done (mask, cnt)
+  | k :: ks' =>
+    m <~ rd mask k ;;
+    if m =? i then mask_count ks' i mask cnt
+    else mask' <~ wr mask k i ;; mask_count ks' i mask' (cnt + 1)
+  end.
+
+Definition zip {A B} := @combine A B.
+
+(* for (k, bv) in zip(b_indices[lo:hi], b_data[lo:hi]) for each (j, av) of the a-row: (k, av * bv) *)
+Fixpoint csr_pairs_js (b_indices b_data b_indptr : list Z) (js : list (Z * Z)) : kres (list (Z * Z)) :=
+  match js with
+  | [] => Done []
+  | (j, av) :: js' =>
+    lo <~ rd b_indptr j ;;
+    hi <~ rd b_indptr (j + 1) ;;
+    rest <~ csr_pairs_js b_indices b_data b_indptr js' ;;
+    Done (map (fun kb => (fst kb, av * snd kb)) (zip (slice b_indices lo hi) (slice b_data lo hi)) ++ rest)
+  end.
+
+Definition csr_row_pairs (a_indices a_data a_indptr b_indices b_data b_indptr : list Z) (i : Z)
+  : kres (list (Z * Z)) :=
+  lo <~ rd a_indptr i ;;
+  hi <~ rd a_indptr (i + 1) ;;
+  csr_pairs_js b_indices b_data b_indptr (zip (slice a_indices lo hi) (slice a_data lo hi)).
+
+Section CsrCsr.
+  Variables (a_indices a_data a_indptr b_indices b_data b_indptr : list Z) (n_row n_col : Z).
+
+  (* the count kernel never looks at the data: it is run with a_data := a_indices, b_data := b_indices *)
+  Fixpoint ccn_rows (is : list Z) (mask : list Z) (nnz : Z) : kres Z :=
+    match is with
+    | [] => Done nnz
+    | i :: is' =>
+      ps <~ csr_row_pairs a_indices a_indices a_indptr b_indices b_indices b_indptr i ;;
+      '(mask', nnz') <~ mask_count (map fst ps) i mask nnz ;;
+      ccn_rows is' mask' nnz'
+    end.
+
+  Definition csr_csr_count_nnz : kres Z :=
+    ccn_rows (zrange n_row) (repeat (-1) (Z.to_nat n_col)) 0.
+End CsrCsr.
+
+(* _dot_csr_csr, per row i:
+     head = -2; length = 0; next_[:] = -1
+     for (k, v) in pairs: sums[k] += v
+                          if next_[k] == -1: next_[k] = head; head = k; length += 1
+     for _ in range(length):
+         if next_[head] != -1: indices[nnz] = head; data[nnz] = sums[head]; nnz += 1      (guarded = true)
+         temp = head; head = next_[head]; next_[temp] = -1; sums[temp] = 0
+     order = argsort(indices[indptr[i]:nnz]); permute indices and data of the segment; indptr[i+1] = nnz
+   _dot_csc_ndarray_sparse runs the same insertion / drain (its linked list lives in `mask`, the write
+   in the drain is unconditional: guarded = false). *)
+Fixpoint ll_insert (ps : list (Z * Z)) (nx sums : list Z) (head len : Z) : kres (list Z * list Z * Z * Z) :=
+  match ps with
+  | [] => Done (nx, sums, head, len)
+  | (k, v) :: ps' =>
+    s <~ rd sums k ;;
+    sums' <~ wr sums k (s + v) ;;
+    x <~ rd nx k ;;
+    if x =? -1 then nx' <~ wr nx k head ;; ll_insert ps' nx' sums' k (len + 1)
+    else ll_insert ps' nx sums' head len
+  end.
+
+Fixpoint ll_drain (guarded : bool) (n : nat) (head : Z) (nx sums indices data : list Z) (nnz : Z)
+  : kres (list Z * list Z * list Z * list Z * Z) :=
+  match n with
+  | O => Done (nx, sums, indices, data, nnz)
+  | S n' =>
+    x <~ rd nx head ;;
+    '(indices', data', nnz') <~
+      (if negb guarded || negb (x =? -1) then
+         ind' <~ wr indices nnz head ;;
+         s <~ rd sums head ;;
+         dat' <~ wr data nnz s ;;
+         Done (ind', dat', nnz + 1)
+       else Done (indices, data, nnz)) ;;
+    nx' <~ wr nx head (-1) ;;
+    sums' <~ wr sums head 0 ;;
+    ll_drain guarded n' x nx' sums' indices' data' nnz'
+  end.
+
+(* argsort of a segment's column indices and the permutation of both arrays: insertion sort on pairs
+   (the keys of a segment are distinct, so every sorting algorithm gives the same answer) *)
+Fixpoint ins_pair (p : Z * Z) (l : list (Z * Z)) : list (Z * Z) :=
+  match l with
+  | [] => [p]
+  | q :: r => if fst p <=? fst q then p :: l else q :: ins_pair p r
+  end.
+Definition sort_pairs (l : list (Z * Z)) : list (Z * Z) := fold_right ins_pair [] l.
+
+(* a[lo:hi] = vals  (lo, hi inside the buffer, len(vals) = hi - lo) *)
+Definition set_slice {A} (l : list A) (lo : Z) (vals : list A) : list A :=
+  firstn (Z.to_nat lo) l ++ vals ++ skipn (Z.to_nat lo + length vals) l.
+
+Definition sort_segment (indices data : list Z) (lo hi : Z) : list Z * list Z :=
+  let seg := sort_pairs (zip (slice indices lo hi) (slice data lo hi)) in
+  (set_slice indices lo (map fst seg), set_slice data lo (map snd seg)).
+
+Section DotCsrCsr.
+  Variables (a_indices a_data a_indptr b_indices b_data b_indptr : list Z) (n_row n_col : Z).
+
+  Fixpoint dcc_rows (is : list Z) (nx sums indices data indptr : list Z) (nnz : Z)
+    : kres (list Z * list Z * list Z) :=
+    match is with
+    | [] => Done (data, indices, indptr)
+    | i :: is' =>
+      let nx0 := repeat (-1) (length nx) in                                   (* next_[:] = -1 *)
+      ps <~ csr_row_pairs a_indices a_data a_indptr b_indices b_data b_indptr i ;;
+      '(nx1, sums1, head, len) <~ ll_insert ps nx0 sums (-2) 0 ;;
+      '(nx2, sums2, indices2, data2, nnz2) <~ ll_drain true (Z.to_nat len) head nx1 sums1 indices data nnz ;;
+      start <~ rd indptr i ;;
+      let '(indices3, data3) := sort_segment indices2 data2 start nnz2 in
+      indptr' <~ wr indptr (i + 1) nnz2 ;;
+      dcc_rows is' nx2 sums2 indices3 data3 indptr' nnz2
+    end.
+
+  Definition dot_csr_csr : kres (list Z * list Z * list Z) :=
+    cnt <~ csr_csr_count_nnz a_indices a_indptr b_indices b_indptr n_row n_col ;;
+    indptr <~ wr (repeat 0 (Z.to_nat (n_row + 1))) 0 0 ;;
+    dcc_rows (zrange n_row) (repeat (-1) (Z.to_nat n_col)) (repeat 0 (Z.to_nat n_col))
+             (repeat 0 (Z.to_nat cnt)) (repeat 0 (Z.to_nat cnt)) indptr 0.
+End DotCsrCsr.
+
+(* _csc_ndarray_count_nnz / _dot_csc_ndarray_sparse: a (n x K) column-compressed, b (K x C) dense.
+   Column i of the result visits, for every j with b[j, i] != 0, the stored rows of column j of a:
+     count:  for k in a_indices[a_indptr[j]:a_indptr[j+1]]: if b[j,i] != 0 and mask[k] != i: ...
+     fill:   u = b[j,i]; if u != 0: for k in range(a_indptr[j], a_indptr[j+1]): ind = a_indices[k]; v = a_data[k] ...
+   (the fill kernel indexes a_indices / a_data directly: each access is checked) *)
+Fixpoint gather2 (a_indices a_data : list Z) (ks : list Z) (u : Z) : kres (list (Z * Z)) :=
+  match ks with
+  | [] => Done []
+  | k :: ks' =>
+    ind <~ rd a_indices k ;;
+    v <~ rd a_data k ;;
+    rest <~ gather2 a_indices a_data ks' u ;;
+    Done ((ind, u * v) :: rest)
+  end.
+
+Definition zrange2 (lo hi : Z) : list Z := map (fun t => lo + t) (zrange (hi - lo)).
+
+Section CscNdarray.
+  Variables (a_indices a_data a_indptr : list Z) (b : list (list Z)) (a_rows bK bC : Z).
+
+  (* count kernel's view of column i (slices: clipped) *)
+  Fixpoint csc_count_ks (js : list Z) (i : Z) : kres (list Z) :=
+    match js with
+    | [] => Done []
+    | j :: js' =>
+      lo <~ rd a_indptr j ;;
+      hi <~ rd a_indptr (j + 1) ;;
+      u <~ (if zlen (slice a_indices lo hi) =? 0 then Done 0 else rd2 b j i) ;;     (* b[j, i] is read inside the k loop *)
+      rest <~ csc_count_ks js' i ;;
+      Done ((if u =? 0 then [] else slice a_indices lo hi) ++ rest)
+    end.
+
+  Fixpoint cscn_cols (is : list Z) (mask indptr : list Z) (nnz : Z) : kres (list Z * Z) :=
+    match is with
+    | [] => Done (indptr, nnz)
+    | i :: is' =>
+      ks <~ csc_count_ks (zrange bK) i ;;
+      '(mask', nnz') <~ mask_count ks i mask nnz ;;
+      indptr' <~ wr indptr (i + 1) nnz' ;;
+      cscn_cols is' mask' indptr' nnz'
+    end.
+
+  Definition csc_ndarray_count_nnz (indptr : list Z) : kres (list Z * Z) :=
+    cscn_cols (zrange bC) (repeat (-1) (Z.to_nat a_rows)) indptr 0.
+
+  (* fill kernel's view of column i (direct indexing: checked) *)
+  Fixpoint csc_fill_pairs (js : list Z) (i : Z) : kres (list (Z * Z)) :=
+    match js with
+    | [] => Done []
+    | j :: js' =>
+      u <~ rd2 b j i ;;
+      here <~ (if u =? 0 then Done []
+               else lo <~ rd a_indptr j ;; hi <~ rd a_indptr (j + 1) ;; gather2 a_indices a_data (zrange2 lo hi) u) ;;
+      rest <~ csc_fill_pairs js' i ;;
+      Done (here ++ rest)
+    end.
+
+  Fixpoint dcns_cols (is : list Z) (mask sums indices data : list Z) (nnz : Z) : kres (list Z * list Z) :=
+    match is with
+    | [] => Done (data, indices)
+    | i :: is' =>
+      ps <~ csc_fill_pairs (zrange bK) i ;;
+      '(mask1, sums1, head, len) <~ ll_insert ps mask sums (-2) 0 ;;
+      '(mask2, sums2, indices2, data2, nnz2) <~ ll_drain false (Z.to_nat len) head mask1 sums1 indices data nnz ;;
+      let '(indices3, data3) := sort_segment indices2 data2 nnz nnz2 in
+      dcns_cols is' mask2 sums2 indices3 data3 nnz2
+    end.
+
+  Definition dot_csc_ndarray_sparse : kres (list Z * list Z * list Z) :=
+    '(indptr, cnt) <~ csc_ndarray_count_nnz (repeat 0 (Z.to_nat (bC + 1))) ;;
+    indptr' <~ wr indptr 0 0 ;;
+    '(data, indices) <~ dcns_cols (zrange bC) (repeat (-1) (Z.to_nat a_rows)) (repeat 0 (Z.to_nat a_rows))
+                                  (repeat 0 (Z.to_nat cnt)) (repeat 0 (Z.to_nat cnt)) 0 ;;
+    Done (data, indices, indptr').
+End CscNdarray.
+
+(* ================================================================= _compressed/convert.py
+   uncompress_dimension(indptr):
+     uncompressed = np.empty(indptr[-1]); for i in range(len(indptr) - 1): uncompressed[indptr[i]:indptr[i+1]] = i
+   (slice assignment clips to the buffer: it cannot go out of bounds; indptr[-1] on an empty indptr can) *)
+Definition fill_slice (l : list Z) (lo hi v : Z) : list Z :=
+  let lo' := Z.min (Z.max 0 lo) (zlen l) in
+  let hi' := Z.min (Z.max lo' hi) (zlen l) in
+  firstn (Z.to_nat lo') l ++ repeat v (Z.to_nat (hi' - lo')) ++ skipn (Z.to_nat hi') l.
+
+Fixpoint uncompress_rows (is : list Z) (indptr out : list Z) : kres (list Z) :=
+  match is with
+  | [] => Done out
+  | i :: is' =>
+    lo <~ rd indptr i ;; hi <~ rd indptr (i + 1) ;;
+    uncompress_rows is' indptr (fill_slice out lo hi i)
+  end.
+
+Definition uncompress_dimension (indptr : list Z) : kres (list Z) :=
+  n <~ rd indptr (-1) ;;
+  if n <? 0 then OutOfBounds      (* np.empty of a negative length *)
+  else uncompress_rows (zrange (zlen indptr - 1)) indptr (repeat 0 (Z.to_nat n)).
+
+(* unravel_index(n, shape):
+     out = zeros(len(shape)); i = 1
+     while i < len(shape) and n > 0: cur = prod(shape[i:]); out[i-1] = n // cur; n -= out[i-1] * cur; i += 1
+     out[-1] = n *)
+Definition zprod (l : list Z) : Z := fold_right Z.mul 1 l.
+
+Fixpoint unravel_loop (fuel : nat) (i n : Z) (shape out : list Z) : kres (list Z) :=
+  match fuel with
+  | O => OutOfFuel
+  | S f =>
+    if (i <? zlen shape) && (0 <? n) then
+      let cur := zprod (skipn (Z.to_nat i) shape) in
+      if cur =? 0 then DivZero else
+      out' <~ wr out (i - 1) (n / cur) ;;
+      unravel_loop f (i + 1) (n - (n / cur) * cur) shape out'
+    else wr out (-1) n
+  end.
+
+Definition unravel_index (F : nat) (n : Z) (shape : list Z) : kres (list Z) :=
+  unravel_loop F 1 n shape (repeat 0 (length shape)).
+
+(* ravel_multi_index(arr, shape): total = sum(a * prod(shape[i:]) for i, a in enumerate(arr[:-1], 1)) + arr[-1] *)
+Fixpoint ravel_loop (arr : list Z) (i : Z) (shape : list Z) (total : Z) : Z :=
+  match arr with
+  | [] => total
+  | a :: r => ravel_loop r (i + 1) shape (total + a * zprod (skipn (Z.to_nat i) shape))
+  end.
+
+Definition ravel_multi_index (arr shape : list Z) : kres Z :=
+  lst <~ rd arr (-1) ;;
+  Done (ravel_loop (removelast arr) 1 shape 0 + lst).
+
+Fixpoint gather (a : list Z) (idx : list Z) : kres (list Z) :=
+  match idx with
+  | [] => Done []
+  | k :: r => v <~ rd a k ;; t <~ gather a r ;; Done (v :: t)
+  end.
+
+(* _linearize: for i, n in enumerate(x_indices):
+     current = unravel_index(n, shape); current_t = current[new_axis_order]
+     new_linear[i] = ravel_multi_index(current_t, new_reordered_shape)
+     new_coords[:, i] = unravel_index(new_linear[i], new_compressed_shape)         (two rows) *)
+Fixpoint linearize_loop (F : nat) (xs : list Z) (i : Z) (shape order rshape cshape : list Z)
+         (lin c0 c1 : list Z) : kres (list Z * list Z * list Z) :=
+  match xs with
+  | [] => Done (lin, c0, c1)
+  | n :: xs' =>
+    cur <~ unravel_index F n shape ;;
+    cur_t <~ gather cur order ;;
+    l <~ ravel_multi_index cur_t rshape ;;
+    lin' <~ wr lin i l ;;
+    col <~ unravel_index F l cshape ;;
+    if negb (zlen col =? 2) then OutOfBounds else
+    r0 <~ rd col 0 ;; r1 <~ rd col 1 ;;
+    c0' <~ wr c0 i r0 ;; c1' <~ wr c1 i r1 ;;
+    linearize_loop F xs' (i + 1) shape order rshape cshape lin' c0' c1'
+  end.
+
+Definition linearize (F : nat) (x_indices shape order rshape cshape : list Z) : kres (list Z * list Z * list Z) :=
+  let z := repeat 0 (length x_indices) in
+  linearize_loop F x_indices 0 shape order rshape cshape z z z.
